@@ -182,9 +182,16 @@ func checkC20(c *Ctx) {
 				if warm > 0 && d != 1000 && d != 100000 {
 					continue
 				}
-				prog := fn + fmt.Sprintf("function w() {\n  return 1\n}\nBEGIN {\n  print \"start\"\n  for (i = 0; i < %d; i++) {\n    w()\n    wv = match (1) { z => z }\n  }\n  print f(%d)\n  print \"after\"\n}\n", warm, d)
-				bjobs = append(bjobs, Job{Kind: "run", Prog: []byte(prog), Events: true, Budget: 50_000_000, N: d})
-				bmeta = append(bmeta, fmt.Sprintf("%s depth=%d warm=%d", name, d, warm))
+				// entered directly, and through one and two extra wrapper functions (which shifts whether the
+				// push that hits the limit is a call or a <match> scope)
+				for wraps, entry := range []string{"f(%d)", "w1(%d)", "w2(%d)"} {
+					if wraps > 0 && warm > 0 {
+						continue
+					}
+					prog := fn + fmt.Sprintf("function w() {\n  return 1\n}\nfunction w1(n) {\n  return f(n)\n}\nfunction w2(n) {\n  return w1(n)\n}\nBEGIN {\n  print \"start\"\n  for (i = 0; i < %d; i++) {\n    w()\n    wv = match (1) { z => z }\n  }\n  print "+entry+"\n  print \"after\"\n}\n", warm, d)
+					bjobs = append(bjobs, Job{Kind: "run", Prog: []byte(prog), Events: true, Budget: 50_000_000, N: d})
+					bmeta = append(bmeta, fmt.Sprintf("%s depth=%d warm=%d wrappers=%d", name, d, warm, wraps))
+				}
 			}
 		}
 	}
@@ -221,6 +228,15 @@ func checkC20(c *Ctx) {
 	for _, x := range fills {
 		fjobs = append(fjobs, Job{Kind: "run", Prog: []byte(fmt.Sprintf("BEGIN {\n  print \"start\"\n  a = []\n  a[%d] = 1\n  print a.length()\n}\n", x)), Budget: 1000, N: x})
 	}
+	// the limit bounds the INDEX, whatever the current length: non-empty arrays, fills in several steps
+	for _, base := range []struct {
+		setup string
+		n     int
+	}{{"a = [1, 2, 3]", 3}, {"a = []\n  a[1000000] = 0", 1000001}} {
+		for _, x := range []int{1048575, 1048576, 1048577, 1048578, 1048579, 1100000, 2000000} {
+			fjobs = append(fjobs, Job{Kind: "run", Prog: []byte(fmt.Sprintf("BEGIN {\n  print \"start\"\n  %s\n  a[%d] = 1\n  print a.length()\n}\n", base.setup, x)), Budget: 1000, N: x})
+		}
+	}
 	pool.Map(fjobs, func(i int, r Result) {
 		x := fjobs[i].N
 		rep := map[string]any{"index": x, "program": string(fjobs[i].Prog), "got_class": r.Class, "got_err": r.ErrMsg, "got_stdout": string(r.Stdout), "detail": r.Detail}
@@ -247,8 +263,10 @@ func checkC20(c *Ctx) {
 	})
 	// magnitudes TLC's integers cannot hold, negative and fractional indices: no crash, error or defined result
 	var ojobs []Job
-	for _, idx := range []string{"1000000000000", "4611686018427387904", "num(\"1e300\")", "(0 - 1)", "(0 - 1000000000000)", "2.5", "0.5", "(0 - 0.5)", "1048576.9", "num(\"1e19\")", "(0 - num(\"1e300\"))"} {
-		for _, form := range []string{"a[%s] = 1\n  print a.length()", "print a[%s]", "a = [1, 2]\n  a[%s] = 1\n  print a.length()", "print [1, 2][%s]"} {
+	for _, idx := range []string{"1000000000000", "4611686018427387904", "num(\"1e300\")", "(0 - 1)", "(0 - 2)", "(0 - 5)", "(0 - 1000000000000)", "2.5", "0.5", "(0 - 0.5)", "1048576.9", "num(\"1e19\")", "(0 - num(\"1e300\"))", "17592186044416", "1048577", "3000000"} {
+		for _, form := range []string{"a[%s] = 1\n  print a.length()", "print a[%s]", "a = [1, 2]\n  a[%s] = 1\n  print a.length()", "print [1, 2][%s]",
+			// arrays created implicitly by the assignment itself: under an unset variable, under an object, deeper
+			"q[%s] = 1\n  print q.length()", "o = {}\n  o.k[%s] = 1\n  print o.k.length()", "o = {}\n  o.a.b[%s].c = 1\n  print o", "q2.k[%s] = 1\n  print q2", "o = {}\n  o.k[%s]++\n  print o"} {
 			ojobs = append(ojobs, Job{Kind: "run", Prog: []byte("BEGIN {\n  print \"start\"\n  a = []\n  " + fmt.Sprintf(form, idx) + "\n}\n"), Budget: 1000, Tag: idx})
 		}
 	}
